@@ -144,9 +144,10 @@ Defects(p) == FramingDefects(p) \cup UNION {EntryDefects(p, i) : i \in 1..N(p)}
 StreamDefects(p) == FramingDefects(p) \cup UNION {EntryStreamDefects(p.es[i]) : i \in 1..N(p)}
 
 \* number of intermediate ofs-deltas the harness inserts below entry deep.at so that its chain
-\* depth is exactly DepthLimit ("max") or DepthLimit + 1 ("over")
+\* depth is exactly DepthLimit - 1 ("under"), DepthLimit ("max": the deepest chain git pack-objects
+\* --depth=4095 may write) or DepthLimit + 1 ("over": git index-pack has no limit, a reader may refuse)
 ExtraN(p) == IF p.deep.l = "none" THEN 0
-             ELSE DepthLimit + (IF p.deep.l = "over" THEN 1 ELSE 0) - Depth(p, p.deep.at, N(p))
+             ELSE DepthLimit + (IF p.deep.l = "over" THEN 1 ELSE IF p.deep.l = "under" THEN -1 ELSE 0) - Depth(p, p.deep.at, N(p))
 
 \* Resolve: the objects of an accepted pack: (entry, resolved type, content symbol, length adjustment)
 Objects(p) == {[i |-> i, t |-> ResT(p, i), o |-> p.es[i].o,
@@ -232,13 +233,13 @@ DeepActs(p, first) ==
   {[p |-> [p EXCEPT !.deep = [at |-> i, l |-> l]], tag |-> "Depth-" \o l] :
      i \in {ii \in 1..N(p) : /\ IsDelta(p.es[ii]) /\ BaseOf(p, ii) # 0 /\ BaseOf(p, ii) < ii
                               /\ \A j \in 1..N(p) : BaseOf(p, j) # ii},
-     l \in {"max", "over"}}
+     l \in {"under", "max", "over"}}
 
 Succ(p, first) ==
   IF ~Untouched(p) THEN {}
   ELSE UNION {EntryActs(p, i) : i \in 1..N(p)} \cup PackActs(p) \cup DeepActs(p, first)
 
-BenignTags == {"DupFull", "Depth-max", "Thin"}
+BenignTags == {"DupFull", "Depth-under", "Depth-max", "Thin"}
 MayTags    == {"Version3", "TrailingJunk", "Depth-over"}
 SizeTags   == {"DeclSize+1", "DeclSize-1", "Inflate+1", "Inflate-1"}
 
@@ -276,6 +277,9 @@ T_MayIffLenient == V = "may" <=> (V # "reject" /\ (st.tags \cap MayTags) # {})
 T_Defects       == (V = "reject" <=> Defects(st.p) # {}) /\ (StreamReject(st.p) <=> StreamDefects(st.p) # {})
 T_DeltaType     == V # "reject" => \A i \in 1..N(st.p) : (IsDelta(st.p.es[i]) /\ ~IsThin(st.p.es[i])) => ResT(st.p, i) = ResT(st.p, BaseOf(st.p, i))
 T_ObjectCount   == V # "reject" => Cardinality(Objects(st.p)) = N(st.p) /\ ExtraN(st.p) >= 0
+\* chain depth boundary: DepthLimit - 1 and DepthLimit must be accepted, DepthLimit + 1 may be refused
+T_DepthClasses  == /\ (st.tags # {} /\ st.tags \subseteq {"Depth-under", "Depth-max"}) => V = "accept"
+                   /\ st.tags = {"Depth-over"} => V = "may"
 T_DepthBound    == V = "accept" => \A i \in 1..N(st.p) : Depth(st.p, i, N(st.p)) + (IF st.p.deep.at = i THEN ExtraN(st.p) ELSE 0) <= DepthLimit
 
 ---------------------------------------------------------------------------
